@@ -235,6 +235,7 @@ func (m *Dense) Inverse(a Matrix) error {
 			m.Copy(a)
 		}
 	default:
+		m.checkOverlapMatrix(aU)
 		m.Copy(a)
 	}
 	// Compute the norm of A.
